@@ -1058,7 +1058,15 @@ def run(R):
         except Exception as e:  # noqa: BLE001
             import traceback
 
-            R.note(f"harness error in history {i}: {traceback.format_exc(limit=4)}")
+            if M.raised_in_library(e):
+                R.violation(
+                    "C11.retention",
+                    f"{kind}/relativize={rel}: {type(e).__name__}: {str(e)[:100]} raised by the library outside the judged calls",
+                    sig={"check": "library exception", "site": M.innermost_dns_site(e), "exc": type(e).__name__},
+                    replay={"check": "construct", "kind": kind, "relativize": rel},
+                )
+            else:
+                R.note(f"harness error in history {i}: {traceback.format_exc(limit=4)}")
             continue
         if i < 2:
             R.sample("C11.retention", {"kind": kind, "relativize": rel, "steps": h.steps[:12]})
@@ -1068,6 +1076,13 @@ def run(R):
 
 
 def replay(data):
+    if data.get("check") == "construct":
+        try:
+            z = M.zone_class(data["kind"])(M.ORIGIN, relativize=data["relativize"])
+            z.reader().rollback()
+        except Exception as e:  # noqa: BLE001
+            return True, f"{type(e).__name__}: {e}"
+        return False, "zone constructed and readable"
     if data.get("check") == "immutable":
         bad, detail, _f, _u = _immut_one(None, data["kind"], data["relativize"], data["base"])
         return bad, detail
